@@ -67,8 +67,8 @@ class MetaLeaf(Mid, metaclass=abc.ABCMeta):
     """an exception class whose metaclass is not plain `type` (e.g. one that mixes in an ABC)"""
 
 
-QUICK_CLASSES = [Base, Mid, Leaf, Sib, Other, LeafTwin, MetaLeaf]
-THOROUGH_CLASSES = [Base, Mid, Leaf, Sib, Sib2, Other, OtherLeaf, LeafTwin, MetaLeaf]
+QUICK_CLASSES = [Base, Mid, Leaf, Sib, Other, LeafTwin, MetaLeaf, Exception]
+THOROUGH_CLASSES = [Base, Mid, Leaf, Sib, Sib2, Other, OtherLeaf, LeafTwin, MetaLeaf, Exception]
 
 
 def atoms(tier):
